@@ -624,6 +624,8 @@ def run(ctx):
     from . import c12 as _c12b
     ctx.do(_c12b.r12_5)  # flag rows of removed messages do not survive in the database
     ctx.do(_c12b.r12_1)  # keys and UIDs come back from the db in the columns they were written to: nothing old is announced as new
+    from . import c01 as _c01x
+    ctx.do(_c01x.r1_11)  # every selected session is told of the new messages
     ctx.note("periodic poll liveness (clean-up before the emptiness test of executing_tasks) is decided by C10 R10.7")
     for k, v in WRITEBACK_EXEMPT.items():
         ctx.trust(f"frozen write-back exemption: {k} - {v}")
